@@ -28,7 +28,6 @@ import (
 	"sort"
 	"strings"
 	"sync"
-	"unsafe"
 
 	"github.com/krotik/ecal/interpreter"
 	"github.com/krotik/ecal/parser"
@@ -171,7 +170,7 @@ func evErr(err error) string {
 // evErrFull is evErr plus the class of the error and what it carries besides its type:
 //   ERR <type> <line> <col> R                      *util.RuntimeError
 //   ERR <type> <line> <col> D <detail-hex> <data>  *util.RuntimeErrorWithDetail (raise): detail text, canonical data
-//   ERR <type> <line> <col> V <value>              *returnValue: the value that travels with the return signal
+//   ERR <type> <line> <col> V                      the return signal (embeds a *util.RuntimeError of type ErrReturn)
 func evErrFull(err error) string {
 	base := evErr(err)
 	if base == "ERRPLAIN" {
@@ -183,12 +182,12 @@ func evErrFull(err error) string {
 	case *util.RuntimeErrorWithDetail:
 		return base + " D " + hx(e.Detail) + " " + evCanon(e.Data)
 	}
-	rv := reflect.ValueOf(err)
-	if rv.Kind() == reflect.Ptr && rv.Elem().Kind() == reflect.Struct {
-		if f := rv.Elem().FieldByName("returnValue"); f.IsValid() && f.CanAddr() {
-			v := reflect.NewAt(f.Type(), unsafe.Pointer(f.UnsafeAddr())).Elem().Interface()
-			return base + " V " + evCanon(v)
-		}
+	// the return signal: neither of the two exported error types, but it embeds a *util.RuntimeError
+	// (found by evErr) whose Type is util.ErrReturn. The returned VALUE is not read here (that would need
+	// the name of an unexported field): it is observed where the language makes it observable, through
+	// the value of the call (x.mark(f())).
+	if strings.HasPrefix(base, "ERR "+hx(util.ErrReturn.Error())+" ") {
+		return base + " V"
 	}
 	return base + " ?"
 }
